@@ -8,6 +8,12 @@ CHECKS = {
    text="Inductive step, decided by the solver: from every list of length n<=N (payloads symbolic, equal ones allowed) every one of the 11 operations on every node position leaves head/tail/all prev+next links/size equal to the identity-based reference sequence; plus a solver search for payload patterns that make node comparison recurse with the position (confirmed on a 3000-element list before reporting). Holds for all values inside N; histories of any length with size<=N follow by induction.",
    note="Trusted: CrossHair 0.0.110 path exploration + z3 5.1 verdicts; harness oracle (identity sequence). Bounds: N=6 quick / 8 thorough; ints as payloads."),
 }
+CHECKS["C06"] = dict(level="other", design="4/C06",
+   text="Inductive step decided by the solver: from every LRUCache state with capacity<=C (all recency orders; keys, values, probe arguments unbounded symbolic ints) each of 14 mapping operations (+ ==/!= against dict/LRUCache) matches an ordered-list model and the full representation invariant (dict<->nodes<->links/size); views are consumed under an element budget so non-termination is a decided verdict. For all values inside the capacity bound; histories of any length follow by induction.",
+   note="Trusted: CrossHair+z3; AssocDict stub standing in for the internal dict in symbolic runs (replays use the real dict); Mapping mixins of CPython executed as they are. Bounds: capacity<=3 quick / <=5 thorough.")
+CHECKS["C07"] = dict(level="other", design="4/C07",
+   text="Inductive step decided by the solver: from every LFUCache state with capacity<=C and use counts<=M (every tie order; keys/values symbolic ints) each mapping operation matches a content+count model in which ties are free: victim has minimal count, list non-decreasing in count, value = last stored, Item.meta == model count, dict/list/links/size consistent; views terminate under a budget.",
+   note="Trusted: CrossHair+z3; AssocDict stub for the internal dict in symbolic runs. Bounds: capacity<=3,count<=3 quick / <=4,<=4 thorough.")
 NOT_YET = {}
 def main():
     props = [json.loads(l)["id"] for l in open(os.path.join(ROOT, "properties.jsonl"))]
